@@ -19,6 +19,7 @@ type result struct {
 	Cases      int      `json:"cases"`
 	Violations int      `json:"violations"`
 	Witnesses  []string `json:"witnesses,omitempty"`
+	Classes    map[string]int `json:"violation_classes,omitempty"` // violations by class; a class may be a recorded finding
 	Known      []string `json:"known,omitempty"`
 }
 
@@ -39,11 +40,27 @@ func report(t *testing.T, r *result) {
 	results = append(results, r)
 	resMu.Unlock()
 	if r.Violations > 0 {
-		t.Errorf("%s/%s: %d violations, first: %v", r.Property, r.Name, r.Violations, r.Witnesses)
+		t.Logf("%s/%s: %d violations, first: %v", r.Property, r.Name, r.Violations, r.Witnesses)
+	}
+}
+
+// violateClass records a violation that belongs to a named class (used for recorded findings).
+func (r *result) violateClass(class, format string, a ...any) {
+	if r.Classes == nil {
+		r.Classes = map[string]int{}
+	}
+	r.Classes[class]++
+	r.Violations++
+	if len(r.Witnesses) < 5 {
+		r.Witnesses = append(r.Witnesses, "["+class+"] "+fmt.Sprintf(format, a...))
 	}
 }
 
 func (r *result) violate(format string, a ...any) {
+	if r.Classes == nil {
+		r.Classes = map[string]int{}
+	}
+	r.Classes["unclassified"]++
 	r.Violations++
 	if len(r.Witnesses) < 5 {
 		r.Witnesses = append(r.Witnesses, fmt.Sprintf(format, a...))
